@@ -2077,6 +2077,11 @@ fn emit_fn(ctx: &mut Ctx, d: &FnDir, out: &mut String) {
         if let Some(a) = d.opts.get("attr") {
             let _ = writeln!(out, "    {}", a);
         }
+        if tag == "vac" {
+            // the vacuity clone asks for `false`: a contradiction in the requires is found at once; otherwise the query is expected to FAIL,
+            // and a small resource limit (about one second) keeps that failure cheap (running out of it counts as "not vacuous")
+            let _ = writeln!(out, "    #[verifier::rlimit(1)]");
+        }
         let _ = writeln!(out, "    {}", pretty(head, 1).trim());
         let _ = writeln!(out, "{}", spec.trim_end());
         let _ = writeln!(out, "    {{");
